@@ -7,14 +7,14 @@ TRACE = "PollObsTrace"
 NAMES = {"sub": "sub%d", "env": "env%d", "can": "can%d", "notif": "notif0", "loop": "PollExecutor-q", "obs": "main"}
 
 
-def converter(cancel_fn, poll_raise):
+def converter(cancel_fn, poll_raise, poll_dur=0):
     def convert(beh):
         st0 = beh[0][1]
         S, Y, K = tlc.nums(st0["cfgS"]), tlc.nums(st0["cfgY"]), tlc.nums(st0["cfgK"])
         F = tlc.bools(st0["cfgFail"])
         jobs = [{"S": S[i], "D": 200, "fail": F[i], "y": Y[i], "K": K[i] if K[i] < 90000 else None, "C": True}
                 for i in range(len(S))]
-        p = {"flavour": "manual", "jobs": jobs, "cancel_fn": cancel_fn, "poll_raise": poll_raise, "poll_dur": 0,
+        p = {"flavour": "manual", "jobs": jobs, "cancel_fn": cancel_fn, "poll_raise": poll_raise, "poll_dur": poll_dur,
              "notify": [260], "interval": 500, "horizon": 1800, "visible": True}
         return ({"scen": "poll", "params": p, "strat": ["replay", tlc.schedule_of(beh, NAMES), ["sticky"], True],
                  "gran": "sync", "facts": {"replay": True}}, tlc.hist(beh[-1][1]["hist"]))
@@ -56,9 +56,10 @@ def run(ck):
     rng = random.Random(ck.seed)
     ck.mc("Poll", "Poll.mc.cfg", timeout=3000)
     ck.mc("Poll", "Poll.mc2.cfg", timeout=3000)
-    for cfg, cf, pr in (("Poll.sim.cfg", "false", 0), ("Poll.sim2.cfg", "true", 2)):
+    ck.mc("Poll", "Poll.mc3.cfg", timeout=3000)     # a poll function that takes time and raises: registrations during the call
+    for cfg, cf, pr, pd in (("Poll.sim.cfg", "false", 0, 0), ("Poll.sim2.cfg", "true", 2, 0), ("Poll.sim3.cfg", "false", 2, 50)):
         behs = tlc.simulate_behaviours("Poll", cfg, 30 if quick else 300, 150, ck.seed + 3, timeout=900)
-        ck.replay_behaviours(behs, converter(cf, pr), project, TRACE)
+        ck.replay_behaviours(behs, converter(cf, pr, pd), project, TRACE)
     tasks = []
     for i in range(700 if quick else 14000):
         p = gen(rng, i)
